@@ -1,6 +1,7 @@
 """The symbolic interpreter (expressions, statements, calls, loops)."""
 from __future__ import annotations
 import ast
+import os
 import z3
 
 from .values import *  # noqa
@@ -512,6 +513,10 @@ class Interp:
     def raise_exc(self, cls, msg=""):
         if self.spec:
             raise SpecUndef("partial operation in spec mode: %s %s" % (cls, msg))
+        if os.environ.get("PYVC_RAISE_TB"):
+            import traceback
+            traceback.print_stack(limit=6)
+            print("   raise_exc", cls, msg)
         raise PyRaise(VExc(cls, [mk_const(msg)]))
 
     def require_defined(self, cond, cls, msg=""):
@@ -1398,6 +1403,11 @@ class Interp:
 
     def ex_Assign(self, s, env):
         v = self.ev(s.value, env)
+        if isinstance(v, VDRec):
+            # fresh copy bound to exactly one local: that local owns it (see VDRec.owner); anything else is an alias
+            fresh_copy = (isinstance(s.value, ast.Call) and isinstance(s.value.func, ast.Name) and s.value.func.id == "dict"
+                          and len(s.targets) == 1 and isinstance(s.targets[0], ast.Name))
+            v.owner = (env, s.targets[0].id) if fresh_copy else None
         for t in s.targets:
             self.assign(t, v, env)
         self.ghost_asserts_after(s, env)
@@ -1638,6 +1648,18 @@ class Interp:
             if isinstance(t.slice, ast.Slice):
                 raise Unsupported("slice assignment")
             k = self.ev(t.slice, env)
+            if isinstance(o, VDRec):
+                c = const_of(k) if isinstance(k, VStr) else _NOCONST
+                own = o.owner
+                if (own is None or not isinstance(t.value, ast.Name) or own[0] is not env or own[1] != t.value.id
+                        or not isinstance(c, str) or c not in o.t.fields):
+                    raise Unsupported("item store into a dict-shaped record that is not a fresh local copy (x = dict(rec))")
+                vals = {fn: (unwrap(v, ft) if fn == c else o.t.val(fn, o.e)) for fn, ft in o.t.fields.items()}
+                pres = {fn: (z3.BoolVal(True) if fn == c else o.t.has(fn, o.e)) for fn in o.t.optional}
+                nv = VDRec(o.t.mk(vals, pres), o.t)
+                nv.owner = own
+                env.set(own[1], nv)
+                return
             B.store_subscript(self, o, k, v)
         else:
             raise Unsupported("assign target %s" % type(t).__name__)
